@@ -199,7 +199,7 @@ def random_config(rng, closed=True):
             masses = {name: same for name in frags}
     cfg = dict(frag_string='{' + ','.join('#%s=%s' % kv for kv in frags.items()) + '}', polymer_reactivities=poly,
                fragment_reactivities=fragr, terminal_bonds=terminal, fragment_masses=masses, all_atom=all_atom,
-               seed=rng.randrange(10 ** 6), start_fragment=rng.choice([None, None, 'U0']),
+               seed=rng.choice([0, 1, 2 ** 40 + 7]) if rng.random() < 0.08 else rng.randrange(10 ** 6), start_fragment=rng.choice([None, None, 'U0']),
                target_units=rng.choice([1, 2, 5, 12, 40]))
     feats = {'all_atom' if all_atom else 'coarse', 'poly_' + mode, 'nfrag_%d' % len(frags)}
     if masses and rng.random() < 0.5:
